@@ -25,8 +25,13 @@ pub enum ROperand {
     FromLossy,
     /// "h ".parse(): a parsed relation that carries trailing whitespace inside its node
     ParsedTrailingWs,
+    /// the relation "m (>= 2)" moved out of another entry with remove_relation ("k | m (>= 2) | n")
+    Moved,
+    /// the relation "w (>> 1)" of a field normalised by wrap_and_sort, moved out with remove_relation
+    MovedNormalised,
 }
-pub const ROPERANDS: [ROperand; 6] = [ROperand::Parsed, ROperand::Simple, ROperand::New, ROperand::Built, ROperand::FromLossy, ROperand::ParsedTrailingWs];
+pub const ROPERANDS: [ROperand; 8] =
+    [ROperand::Parsed, ROperand::Simple, ROperand::New, ROperand::Built, ROperand::FromLossy, ROperand::ParsedTrailingWs, ROperand::Moved, ROperand::MovedNormalised];
 
 #[derive(Clone, Copy, Serialize, Deserialize, PartialEq, Debug)]
 pub enum EOperand {
@@ -36,8 +41,12 @@ pub enum EOperand {
     FromVec,
     /// Entry::new() + push(Relation::simple("f"))
     NewPush,
+    /// the entry "m | n (<= 3)" moved out of another field with remove_entry ("k, m | n (<= 3), o")
+    Moved,
+    /// Entry::from(Vec<lossy::Relation>)
+    FromLossyVec,
 }
-pub const EOPERANDS: [EOperand; 3] = [EOperand::Parsed, EOperand::FromVec, EOperand::NewPush];
+pub const EOPERANDS: [EOperand; 5] = [EOperand::Parsed, EOperand::FromVec, EOperand::NewPush, EOperand::Moved, EOperand::FromLossyVec];
 
 #[derive(Clone, Copy, Serialize, Deserialize, PartialEq, Debug)]
 pub enum RelEdit {
@@ -169,6 +178,15 @@ fn mk_rel(o: ROperand) -> (ll::Relation, MRel) {
         ROperand::Parsed => (ll::Relation::from_str("c (>= 1)").unwrap(), MRel { version: Some((">=".into(), "1".into())), ..mrel("c") }),
         ROperand::Simple => (ll::Relation::simple("d"), mrel("d")),
         ROperand::ParsedTrailingWs => (ll::Relation::from_str("h ").unwrap(), mrel("h")),
+        ROperand::Moved => {
+            let donor = ll::Entry::from_str("k | m (>= 2) | n").unwrap();
+            (donor.remove_relation(1), MRel { version: Some((">=".into(), "2".into())), ..mrel("m") })
+        }
+        ROperand::MovedNormalised => {
+            let donor = ll::Relations::from_str("x, w (>> 1)").unwrap().wrap_and_sort();
+            let e = donor.get_entry(0).unwrap();
+            (e.remove_relation(0), MRel { version: Some((">>".into(), "1".into())), ..mrel("w") })
+        }
         ROperand::New => (
             ll::Relation::new("e", Some((VersionConstraint::LessThan, "2:1.0".parse().unwrap()))),
             MRel { version: Some(("<<".into(), "2:1.0".into())), ..mrel("e") },
@@ -207,6 +225,18 @@ fn mk_entry(o: EOperand) -> (ll::Entry, Vec<MRel>) {
             let mut e = ll::Entry::new();
             e.push(ll::Relation::simple("f"));
             (e, vec![mrel("f")])
+        }
+        EOperand::Moved => {
+            let mut donor = ll::Relations::from_str("k, m | n (<= 3), o").unwrap();
+            (donor.remove_entry(1), vec![mrel("m"), MRel { version: Some(("<=".into(), "3".into())), ..mrel("n") }])
+        }
+        EOperand::FromLossyVec => {
+            let mut a = ly::Relation::new();
+            a.name = "u".into();
+            let mut b = ly::Relation::new();
+            b.name = "v".into();
+            b.version = Some((VersionConstraint::GreaterThan, "1:2-3".parse().unwrap()));
+            (ll::Entry::from(vec![a, b]), vec![mrel("u"), MRel { version: Some((">>".into(), "1:2-3".into())), ..mrel("v") }])
         }
     }
 }
@@ -260,7 +290,7 @@ pub const INITS: [(&str, bool); 13] = [
 ];
 
 /// values assembled by the constructors instead of the parser
-pub const CTOR_INITS: [&str; 5] = ["@new", "@default", "@from-vec", "@from-entry", "@from-empty-vec"];
+pub const CTOR_INITS: [&str; 8] = ["@new", "@default", "@from-vec", "@from-entry", "@from-empty-vec", "@normalised:b (>> 1) | a, c:any (<< 2:1~x) [!amd64] <!p q>", "@normalised:a (>= 1), b", "@normalised:${s:V}, b, a | c (= 1)"];
 
 /// Layout templates: '^' = whitespace at the field's start/end (SEP_WS), ',' = comma with whitespace before (SEP_WS) and
 /// after (SEP_WS1), '|' = pipe with whitespace before and after (SEP_WS1), '_' = whitespace between the parts of a relation
@@ -575,6 +605,14 @@ fn build_init(init: &str, subst: bool) -> Result<ll::Relations, String> {
         "@from-vec" => ll::Relations::from(vec![e_ab(), ll::Entry::from(ll::Relation::simple("c"))]),
         "@from-entry" => ll::Relations::from(e_ab()),
         "@from-empty-vec" => ll::Relations::from(Vec::<ll::Entry>::new()),
+        n if n.starts_with("@normalised:") => {
+            // a tree assembled by wrap_and_sort (its tokens differ from the parser's, e.g. one token per operator)
+            let (root, errs) = ll::Relations::parse_relaxed(&n["@normalised:".len()..], true);
+            if !errs.is_empty() {
+                return Err("initial field does not parse".into());
+            }
+            root.wrap_and_sort()
+        }
         _ => {
             let (root, errs) = ll::Relations::parse_relaxed(init, subst);
             if !errs.is_empty() {
@@ -781,7 +819,7 @@ impl Prop for C11 {
         let fixed = (INITS.len() + CTOR_INITS.len()) * 2;
         if shard < fixed {
             let i = shard / 2;
-            let (init, subst) = if i < INITS.len() { INITS[i] } else { (CTOR_INITS[i - INITS.len()], false) };
+            let (init, subst) = if i < INITS.len() { INITS[i] } else { (CTOR_INITS[i - INITS.len()], CTOR_INITS[i - INITS.len()].contains("${")) };
             let nocache = shard % 2 == 1;
             let (dc, dn) = depths(t);
             self.bfs(t, init, subst, nocache, if nocache { dn } else { dc }, f);
